@@ -67,6 +67,8 @@ def binary_forms(a, b, full=True):
         (f"(({a}), ({b}))[2]", "Tup2IdxOOB"), (f"(({a}), ({b}))[-1]", "Tup2IdxFromEnd"), (f"(({a}), ({b}))[-2]", "Tup2IdxFromEnd2"), (f"(({a}), ({b}))[-3]", "Tup2IdxFromEndOOB"), (f"(({a}), ({b}))[({a})]", "Tup2IdxVar"), (f"[({a}), ({b})][0]", "List2Idx"),
         (f"{{'a': ({a}), 'b': ({b})}}.a", "Dict2Attr"), (f"{{'a': ({a}), 'b': ({b})}}['b']", "Dict2Key"),
         (f"{{'a': ({a}), 'b': ({b})}}.c", "Dict2Absent"), (f"{{'a': ({a}), 'b': ({b})}}['c']", "Dict2AbsentKey"),
+        # a display with a starred element: how many values it holds is only known when it runs, no index is "out of range" on the text
+        (f"(({a}), *({b}))[1]", "TupStarIdx"), (f"(*({a}), ({b}))[5]", "TupStarIdxBeyondWritten"), (f"[*({a}), ({b})][-1]", "ListStarIdxFromEnd"),
         (f"({a}) if ({b}) else ({a})", "IfExpT"), (f"({a}) if ({a}) else ({b})", "IfExpE"), (f"(({a}), ({b}))", "Tuple2"),
         (f"[({a}), ({b})]", "List2"), (f"{{'a': ({a}), 'jet-pt': ({b})}}", "Dict2"), (f"(lambda q: ({a}))({b})", "CalledLambda"),
         # a key that is an identifier and still no field a record class can have (python's own names) next to an ordinary one, the
@@ -214,7 +216,7 @@ def refusal_classes(body):
     for n in astx.walk_nodes(body):
         if isinstance(n, ast.Constant) and not isinstance(n.value, LEGAL):
             r.add("r1-constant")
-        if isinstance(n, ast.Subscript) and isinstance(n.value, ast.Tuple):
+        if isinstance(n, ast.Subscript) and isinstance(n.value, ast.Tuple) and not any(isinstance(x, ast.Starred) for x in n.value.elts):
             s = n.slice
             if isinstance(s, ast.UnaryOp) and isinstance(s.op, ast.USub) and isinstance(s.operand, ast.Constant) and type(s.operand.value) is int:
                 s = ast.Constant(value=-s.operand.value)  # (t[-1] as python parses it: a constant index, counted from the end)
